@@ -207,3 +207,43 @@ package spatial
 //@   assert [cross-orthogonal-b] m == 0.0
 //@   assert [dot-commutes] dab == dba
 //@ end
+
+//@ -- C20 / C15: extreme point along a direction (ideal reals): an element of the list that bounds all others; empty input is refused
+//@ func MaxPoint
+//@   props C20 C15
+//@   float ideal
+//@   requires forall k :: 0 <= k && k < len(points) ==> points[k] != nil
+//@   ensures [err-iff-empty] len(points) == 0 <==> r1 != nil
+//@   ensures [non-nil] r0 != nil
+//@   ensures [element] r1 == nil ==> (exists j :: 0 <= j && j < len(points) && r0 == points[j])
+//@   ensures [bounds-all] r1 == nil ==> (forall k :: 0 <= k && k < len(points) ==> points[k].X * vec.X + points[k].Y * vec.Y + points[k].Z * vec.Z <= r0.X * vec.X + r0.Y * vec.Y + r0.Z * vec.Z)
+//@   loop 0 invariant max != nil && (exists j :: 0 <= j && j < len(points) && max == points[j]) && maxValue == max.X * vec.X + max.Y * vec.Y + max.Z * vec.Z && (forall k :: 0 <= k && k < $i ==> points[k].X * vec.X + points[k].Y * vec.Y + points[k].Z * vec.Z <= maxValue)
+//@ end
+
+//@ func MinPoint
+//@   props C20 C15
+//@   float ideal
+//@   requires forall k :: 0 <= k && k < len(points) ==> points[k] != nil
+//@   ensures [err-iff-empty] len(points) == 0 <==> r1 != nil
+//@   ensures [non-nil] r0 != nil
+//@   ensures [element] r1 == nil ==> (exists j :: 0 <= j && j < len(points) && r0 == points[j])
+//@   ensures [bounds-all] r1 == nil ==> (forall k :: 0 <= k && k < len(points) ==> points[k].X * vec.X + points[k].Y * vec.Y + points[k].Z * vec.Z >= r0.X * vec.X + r0.Y * vec.Y + r0.Z * vec.Z)
+//@   loop 0 invariant min != nil && (exists j :: 0 <= j && j < len(points) && min == points[j]) && minValue == min.X * vec.X + min.Y * vec.Y + min.Z * vec.Z && (forall k :: 0 <= k && k < $i ==> points[k].X * vec.X + points[k].Y * vec.Y + points[k].Z * vec.Z >= minValue)
+//@ end
+
+//@ func Point3.IsClose
+//@   props C20
+//@   float ideal
+//@   ensures r0 <==> ((p.X == q.X || abs(p.X - q.X) <= epsilon) && (p.Y == q.Y || abs(p.Y - q.Y) <= epsilon) && (p.Z == q.Z || abs(p.Z - q.Z) <= epsilon))
+//@ end
+
+//@ -- C20 / C16: append-if-new keeps the existing elements in place and adds the point exactly when no element is close to it
+//@ func UniqueAppend
+//@   props C20 C16
+//@   float ideal
+//@   requires addPoint != nil && (forall k :: 0 <= k && k < len(points) ==> points[k] != nil)
+//@   ensures [prefix] len(r0) >= len(points) && (forall k :: 0 <= k && k < len(points) ==> r0[k] == points[k])
+//@   ensures [appended-iff-new] (len(r0) == len(points) + 1 && r0[len(points)] == addPoint) || (len(r0) == len(points) && (exists k :: 0 <= k && k < len(points) && (points[k].X == addPoint.X || abs(points[k].X - addPoint.X) <= epsilon) && (points[k].Y == addPoint.Y || abs(points[k].Y - addPoint.Y) <= epsilon) && (points[k].Z == addPoint.Z || abs(points[k].Z - addPoint.Z) <= epsilon)))
+//@   ensures [new-when-none-close] (forall k :: 0 <= k && k < len(points) ==> !((points[k].X == addPoint.X || abs(points[k].X - addPoint.X) <= epsilon) && (points[k].Y == addPoint.Y || abs(points[k].Y - addPoint.Y) <= epsilon) && (points[k].Z == addPoint.Z || abs(points[k].Z - addPoint.Z) <= epsilon))) ==> len(r0) == len(points) + 1
+//@   loop 0 invariant (forall k :: 0 <= k && k < $i ==> !((points[k].X == addPoint.X || abs(points[k].X - addPoint.X) <= epsilon) && (points[k].Y == addPoint.Y || abs(points[k].Y - addPoint.Y) <= epsilon) && (points[k].Z == addPoint.Z || abs(points[k].Z - addPoint.Z) <= epsilon)))
+//@ end
